@@ -384,3 +384,30 @@ func (s *Scenario) hardInvolved(u Upd) bool {
 	}
 	return false
 }
+
+// checkRendering validates the harness's own assumption (not an oracle): the version strings it renders are
+// ordered by the ecosystem's comparator exactly as their tuples are ordered by Cmp.
+func (s *Scenario) checkRendering() string {
+	sv := s.system().Semver()
+	for _, p := range s.Universe {
+		type vv struct {
+			t Ver
+			s string
+		}
+		var vs []vv
+		for _, v := range p.Versions {
+			t, ok := ParseVer(v.V)
+			if !ok {
+				return "unparseable version in scenario: " + v.V
+			}
+			vs = append(vs, vv{t, v.V})
+		}
+		sort.Slice(vs, func(i, j int) bool { return Cmp(vs[i].t, vs[j].t) < 0 })
+		for i := 0; i+1 < len(vs); i++ {
+			if sv.Compare(vs[i].s, vs[i+1].s) >= 0 {
+				return fmt.Sprintf("rendering assumption broken: %s should order before %s in %s", vs[i].s, vs[i+1].s, s.Eco)
+			}
+		}
+	}
+	return ""
+}
